@@ -57,7 +57,7 @@ func c14(c *Ctx) {
 	r.Rule("R14.1", "table exhaustiveness and typing: keys = Data_* constants; concrete result types per key are of the class the property states; lazy and preload tables yield the same class per key")
 	r.Rule("R14.2", "dispatch shape of the reifier dispatcher, read from its CFG: !ok of the dag-pb assertion ⇒ return (parameter, nil); Data absent ⇒ default reifier; decode error ⇒ default reifier; table miss ⇒ (nil, error)")
 	r.Rule("R14.3", "kind: every file node type returns the constant Kind_Bytes from Kind() or embeds a node that is bytes-kind at every allocation; every directory node type's Kind() returns the Kind() of its dag-pb substrate")
-	r.Rule("R14.5", "totality of the dispatch: every may-panic construct (index, slice, unchecked assertion, Must) in the registered reifiers and the root-package functions they reach is discharged by C13's guard recognition — an out-of-range or negative data type must end in the error return, not in a panic")
+	r.Rule("R14.5", "totality of the dispatch: every may-panic construct (index, slice, unchecked assertion, Must) in the registered reifiers, the root-package functions they reach and every reader-package function the lazy reifier reaches (constructors of the table members, their validators, the UnixFS decoder) is discharged by C13's guard recognition — an out-of-range or negative data type must end in the error return, not in a panic")
 	r.Rule("R14.4", "substrate identity: Substrate() returns a load of receiver field F; every allocation of the type stores into F a parameter of the allocating function; along every static call chain up to the dispatcher that argument is again the caller's own substrate parameter")
 
 	c.checkDispatchTotality()
@@ -670,6 +670,21 @@ func (c *Ctx) checkDispatchTotality() {
 			seen[f] = true
 			queue = append(queue, f)
 		}
+	}
+	// everything the lazy reifier reaches in the reader packages belongs to "reifying": the constructors of the table
+	// members, their validators and the UnixFS decoder (the preload reifier additionally reaches the consuming operations,
+	// which are C13's subject)
+	lazyReach := map[*ssa.Function]bool{}
+	if lf := reg["unixfs"]; lf != nil {
+		lr, _ := c.G.Reach(lf)
+		for f := range lr {
+			if rel, ok := c.P.PkgOf(f); ok && core.ReaderPkgs[rel] && c.P.HandWritten(f) && f.Synthetic == "" {
+				lazyReach[f] = true
+			}
+		}
+	}
+	for f := range lazyReach {
+		seen[f] = true
 	}
 	for len(queue) > 0 {
 		f := queue[0]
